@@ -47,20 +47,55 @@ def portVal {α} (h : NNet) (c : Nat) (sh : Shape) (z : α) (v : Nat → α) (p 
   | some ll => v ll
   | none => z
 
-/-- side conditions on the implementation for `substitute_sem`: the designated cell is not a port (otherwise the copied
-    line from the host cell to the port's fork loses its reader pin to the instance's line: the result is not a
-    well-formed circuit), the ports are distinct, no port is a flip-flop/latch, and a port that is driven and read
-    inside the implementation is a fork (as `bench.parse` / `TechLib` build it; `substitute` replaces it by a fork) -/
+/-- side conditions on the implementation for `substitute_sem`: there is a designated cell, the ports are distinct, no port
+    is a flip-flop/latch, and a port that is driven and read inside the implementation is a fork (as `bench.parse` /
+    `TechLib` build it; `substitute` replaces it by a fork).  The earlier clause "the designated cell is not a port" is
+    gone: since the repair of D32 the walk that ends at a port yields no designated cell, so under the remaining clauses the
+    designated cell is never a port (`implShape_des_notPort`) -/
 def implOKB (m : NNet) : Bool :=
   match implShape m with
   | none => false
   | some sh =>
-    (match sh.des with
-     | some dn => !(m.net.io.contains dn)
-     | none => false) &&
+    sh.des.isSome &&
     decide m.net.io.Nodup &&
     m.net.io.all fun p => !(isSeqKind (m.net.node p).kind) &&
       (!(decide ((m.net.node p).ins.length > 0) && decide ((m.net.node p).outs.length > 0)) || (m.net.node p).isFork)
+
+/-! ### the behaviour before the repair of D32 (only for the witness `C10.substitute_designated_port_not_wf`) -/
+/-- `implShape` as it was: the node at which the walk from the first output ends is the designated cell even when it is a
+    port of the implementation (`designated_cell = n`) -/
+def implShapeOld (m : NNet) : Option Shape :=
+  let inPorts := m.net.io.filter fun p => (m.net.node p).ins.length == 0
+  let outPorts := m.net.io.filter fun p => (m.net.node p).ins.length != 0
+  let outL := outPorts.map fun p => (m.net.node p).inPin 0
+  if outL.any (·.isNone) then none else
+  let outLines := outL.filterMap id
+  let d0 : Option (Option Nat) := match outLines.head? with
+    | none => some none
+    | some l0 => (walkDesignated m (m.net.nodes.size + 1) (m.net.line l0).driver).map some
+  match d0 with
+  | none => none
+  | some d0 =>
+    let seq := (List.range m.net.nodes.size).find? fun j => isSeqKind (m.net.node j).kind
+    some { inPorts := inPorts, outPorts := outPorts, outLines := outLines, des := if seq.isSome then seq else d0 }
+
+/-- `substitute` with `implShapeOld` in place of `implShape` (everything else as in Model/Substitute.lean) -/
+def substituteOld (h : NNet) (c : Nat) (m : NNet) : Option NNet :=
+  match implShapeOld m with
+  | none => none
+  | some sh =>
+    let node := h.net.node c
+    if node.ins.length > sh.inPorts.length || node.outs.length > sh.outLines.length then none else
+    match (List.range m.net.nodes.size).foldlM (addImplNode m (h.names.getD c "") sh.des) (phase1 h c m sh.des) with
+    | none => none
+    | some (h2, map) =>
+      match connectIns m map (sh.inPorts.zip (padTo node.ins sh.inPorts.length)) (phase3 m map h2, id) with
+      | none => none
+      | some (net4, ren) =>
+        match connectOuts m map (sh.outLines.zip ((padTo node.outs sh.outLines.length).map ren)) (net4, []) with
+        | none => none
+        | some (net5, dang) =>
+          removeDangling (dang.length + net5.lines.size + 1) { h2 with net := densify net5 map } (map.toList.filterMap id) dang
 
 end KV.Transform
 
